@@ -7,6 +7,7 @@ from vp.gen import docs as gdocs, paths as gpaths
 from vp.model import merge as mm, query as mq, edit as medit
 from vp.model.compare import Unspecified
 from vp.model.plain import (canon, cscalar, positions, is_map, is_seq, is_set,
+                            anchor_of,
                             is_container, refkey)
 from vp.props import c05
 
@@ -15,7 +16,7 @@ LEVEL = "exploration"
 RULE = ("E1: left documents = every document <= 3 nodes (no booleans) plus "
         "the C05 family, x merge paths in four classes - (1) the coordinate "
         "path of every existing node, (2) paths matching several nodes "
-        "(/*, /a/*, /**/a, a search), (3) a missing but creatable key/index "
+        "(/*, /a/*, /**/a, a search), (1b) left documents whose target is an anchored list/hash or an alias of one (all 180 policies), (3) a missing but creatable key/index "
         "tail under every container, (4) an unmatchable search - x 8 "
         "right-hand documents covering every root kind (hash, nested hash, "
         "array, Array-of-Hashes, set, int, text) x rotating C05 policy "
@@ -184,8 +185,15 @@ def check_case(ltext, klass, segs, rspec, pol, res):
                     return
                 tpats = {}
                 for m in matches:
-                    tpats[medit.poskey(m.p, m.r)] = mm.expected(
-                        canon(m.v), rc, pol)
+                    pat = mm.expected(canon(m.v), rc, pol)
+                    tpats[medit.poskey(m.p, m.r)] = pat
+                    if anchor_of(m.v) is not None:
+                        # an anchored target: its aliases are the same node
+                        # and show the same merged content
+                        for _, node, parent, ref in positions(ldoc):
+                            if node is m.v and parent is not None:
+                                tpats[medit.poskey(parent, ref)] = pat
+                        res.label("aliased-target")
                 pattern = frame(ldoc, tpats)
                 ntargets = len(tpats)
     except mm.MergeErr:
@@ -250,15 +258,44 @@ def check_case(ltext, klass, segs, rspec, pol, res):
     res.label("rhs:" + mm.kind(rc))
 
 
+ALIASED_LEFTS = [
+    ("base: &x\n  - 1\n  - 2\nweb: *x\nother:\n  - 1\n  - 2\n",
+     ["/web", "/base", "/other"]),
+    ("base: &x\n  a: 1\nweb: *x\nother:\n  a: 1\n", ["/web", "/base"]),
+    ("list:\n  - &x\n    - 1\n  - *x\nk: 1\n", ["/list[1]", "/list[0]"]),
+    ("base: &x\n  - a: 1\n    q: 0\nweb: *x\n", ["/web", "/base"]),
+    ("top:\n  base: &x\n    - 2\n  web: *x\nweb:\n  - 2\n",
+     ["/top/web", "/web"]),
+]
+
+
 def plan(tier, seed):
     nsh = 48
-    return [{"kind": "grid", "part": i, "parts": nsh, "offset": seed,
-             "stride": 1} for i in range(nsh)]
+    shards = [{"kind": "grid", "part": i, "parts": nsh, "offset": seed,
+               "stride": 1} for i in range(nsh)]
+    for i in range(8):
+        shards.append({"kind": "aliased", "part": i, "parts": 8})
+    return shards
 
 
 def run_shard(shard):
     res = Result()
     dl = Deadline(shard.get("budget_s"))
+    if shard["kind"] == "aliased":
+        from yamlpath import YAMLPath
+        from vp.model import pathast
+        n = 0
+        for ltext, ptexts in ALIASED_LEFTS:
+            for ptext in ptexts:
+                segs = pathast.from_parsed(YAMLPath(ptext).escaped)
+                for rspec in RIGHTS:
+                    for j in range(len(c05.ALL_POLICIES)):
+                        n += 1
+                        if n % shard["parts"] != shard["part"]:
+                            continue
+                        check_case(ltext, "existing", segs, rspec,
+                                   c05.policy_for(j, with_rules=False), res)
+        return res
     fam, base = c05.corpus()
     specs = fam + base
     n = 0
